@@ -29,7 +29,7 @@ TOP_FLAGS = ["top_aa", "top_bb", "top_cc"]
 NEST_FLAGS = ["n_aa", "n_bb", "n_uint", "n_outer", "n_cc"]
 TYPE_PROBES = ["Aa", "Bb", "UInt", "Outer", "Cc", "Outer.Aa", "Outer.Outer", "im.Aa", "im.Bb", "Zz", "im.Zz", "Outer.Bb"]
 VALUE_PROBES = ["x", "xa", "p", "Bb.VV", "Outer.Bb.VV", "im.Bb.VV", "VV", "y.x", "y.xa", "o.x", "o.xa", "Aa.k", "im.Aa.k", "zz",
-                "x.y", "Outer.x", "im.Aa.x", "Cc.VV", "im", "ya.x", "oy.x", "o.y.x", "o.ya.x", "oy.k", "ya.zz", "o.p", "p.x", "o.p.x"]
+                "x.y", "Outer.x", "im.Aa.x", "Cc.VV", "im", "ya.x", "oy.x", "o.y.x", "o.ya.x", "oy.k", "ya.zz", "o.p", "p.x", "o.p.x", "Outer.p"]
 SITES_TYPE = ["outer_field", "nested_field", "dd_field"]
 SITES_VALUE = ["outer_let", "nested_let", "dd_let", "outer_sreq", "enum_value"]
 
@@ -115,6 +115,7 @@ def build(cfg):
     lines += ["  0 [+1]  Int  x (xa)", "    [requires: this < 100]", "  1 [+1]  im.Aa  y", "  4 [+p]  Int:8[]  tail", "  let ya = y"]
     dd = Node("Dd", "struct", (M, "Dd"))
     dd.children = [Node("z", "field", (M, "Dd", "z"), vis="local"), Node("o", "field", (M, "Dd", "o"), vis="local", ftype=outer),
+                   Node("im", "field", (M, "Dd", "im"), vis="local"),
                    Node("oy", "field", (M, "Dd", "oy"), vis="local", ftype=iaa)]
     mod.children.append(dd)
     return lines, mod, outer, nested_aa, dd
@@ -214,7 +215,8 @@ def module_for(cfg, probe, site, is_type):
         elif site == "dd_field":
             pass
         probe_text = None
-    lines_dd = ["struct Dd:", "  0 [+1]  UInt  z", "  1 [+8]  Outer(z)  o", "  let oy = o.y"]
+    # Dd also has a field spelled like the import alias: inside Dd the bare name `im` is visible from two scopes
+    lines_dd = ["struct Dd:", "  0 [+1]  UInt  z", "  1 [+8]  Outer(z)  o", "  let oy = o.y", "  10 [+1]  UInt  im"]
     if is_type and site == "dd_field":
         lines_dd.append("  9 [+1]  %s  probe" % ptext)
         chain = [dd]
@@ -255,8 +257,8 @@ def expected_for(mod, chain, parts, is_type, site):
         return "error", "not-a-type"
     # value positions
     if kind in ("field", "abbrev", "param", "value", "const"):
-        if kind in ("field", "abbrev", "param") and len(parts) > 1 and parts[0] in ("Outer", "Aa", "Cc", "im") and r.kind == "field":
-            return "error", "static-ref-to-physical"       # Type.field on a physical field: documented as not allowed
+        if kind in ("field", "abbrev", "param") and len(parts) > 1 and parts[0] in ("Outer", "Aa", "Cc", "im") and r.kind in ("field", "param"):
+            return "error", "static-ref-to-physical"       # Type.field on a physical field or parameter: not allowed
         return "ok", r
     return "error", "not-a-value"
 
